@@ -118,3 +118,22 @@ package rangeproof
 //@   requires units: forall i in 0..len(s.cRep) :: 0 < val(p.Cs[i]) && val(p.Cs[i]) < val(g.N)
 //@   ensures shape: len(result) == 1 + len(s.cRep) && fresh(result) && forall i in 0..len(result) :: result[i] != nil && fresh(result[i])
 //@   modifies nothing
+
+//@ # ---- prover side (C04: what a disclosure proof carries) ----
+//@ pred buildable(s, commit) := s != nil && s.k != nil && commit != nil && commit.v5 != nil && commit.v5Randomizer != nil && commit.m != nil && commit.mRandomizer != nil && len(commit.d) == len(commit.dRandomizers) && len(commit.v) == len(commit.vRandomizers) && (forall i in 0..len(commit.c) :: commit.c[i] != nil) && (forall i in 0..len(commit.d) :: commit.d[i] != nil && commit.dRandomizers[i] != nil) && (forall i in 0..len(commit.v) :: commit.v[i] != nil && commit.vRandomizers[i] != nil)
+
+//@ func (*ProofStructure).BuildProof
+//@   property C04 C13
+//@   safety
+//@   requires s != nil && s.k != nil && commit != nil && challenge != nil && commit.v5 != nil && commit.v5Randomizer != nil && commit.m != nil && commit.mRandomizer != nil
+//@   requires len(commit.d) == len(commit.dRandomizers) && len(commit.v) == len(commit.vRandomizers)
+//@   requires (forall i in 0..len(commit.c) :: commit.c[i] != nil) && (forall i in 0..len(commit.d) :: commit.d[i] != nil && commit.dRandomizers[i] != nil) && (forall i in 0..len(commit.v) :: commit.v[i] != nil && commit.vRandomizers[i] != nil)
+//@   ensures shape: result != nil && fresh(result) && len(result.Cs) == len(commit.c) && len(result.DResponses) == len(commit.d) && len(result.VResponses) == len(commit.v) && result.Sign == s.sign && result.A == s.a && result.Ld == s.ld && result.K != nil && val(result.K) == val(s.k)
+//@   ensures responses: result.MResponse != nil && val(result.MResponse) == prod(val(challenge), val(commit.m)) + val(commit.mRandomizer) && forall i in 0..len(result.Cs) :: result.Cs[i] != nil && val(result.Cs[i]) == val(commit.c[i])
+//@   modifies nothing
+//@   loop 0 invariant 0 <= $i && $i <= len(commit.c) && result != nil && fresh(result) && fresh(result.Cs) && len(result.Cs) == len(commit.c) && fresh(result.DResponses) && len(result.DResponses) == len(commit.d) && fresh(result.VResponses) && len(result.VResponses) == len(commit.v) && forall j in 0..$i :: result.Cs[j] != nil && fresh(result.Cs[j]) && val(result.Cs[j]) == val(commit.c[j])
+//@   loop 0 modifies elems(result.Cs), onlyfresh("BV")
+//@   loop 1 invariant 0 <= $i && $i <= len(commit.d) && result != nil && fresh(result) && fresh(result.Cs) && len(result.Cs) == len(commit.c) && fresh(result.DResponses) && len(result.DResponses) == len(commit.d) && fresh(result.VResponses) && len(result.VResponses) == len(commit.v) && forall j in 0..len(result.Cs) :: result.Cs[j] != nil && fresh(result.Cs[j]) && val(result.Cs[j]) == val(commit.c[j])
+//@   loop 1 modifies elems(result.DResponses), onlyfresh("BV")
+//@   loop 2 invariant 0 <= $i && $i <= len(commit.v) && result != nil && fresh(result) && fresh(result.Cs) && len(result.Cs) == len(commit.c) && fresh(result.DResponses) && len(result.DResponses) == len(commit.d) && fresh(result.VResponses) && len(result.VResponses) == len(commit.v) && forall j in 0..len(result.Cs) :: result.Cs[j] != nil && fresh(result.Cs[j]) && val(result.Cs[j]) == val(commit.c[j])
+//@   loop 2 modifies elems(result.VResponses), onlyfresh("BV")
